@@ -1139,6 +1139,10 @@ def remove_redundant_transpose_reduce_ir(graph: ir.Graph) -> None:
             if t2_out is None or reducer_out is None:
                 continue
             _copy_shape_dtype(reducer_out, t2_out)
+            if t2_out.shape is None:
+                # reducer_out now carries T2's layout; without a shape to copy,
+                # its own pre-fold dims would be stale.
+                reducer_out.shape = None
             ir.convenience.replace_all_uses_with(
                 t2_out, reducer_out, replace_graph_outputs=True
             )
